@@ -369,8 +369,13 @@ void NTT_Goldilocks::extendPol(Goldilocks::Element *output, Goldilocks::Element 
         tmp = buffer;
     }
     // TODO: Pre-compute r
-    if (r == NULL)
+    if (r == NULL || r_N != N)
     {
+        if (r != NULL)
+        {
+            delete[] r;
+            delete[] r_;
+        }
         computeR(N);
     }
 
